@@ -12,7 +12,10 @@ from lib import clist, cnat
 PROP = 'C28'
 IMPORTS = 'From PV Require Import Client.MultiNode.'
 
-SYM = {'S': 'Success', 'R': 'RpcErr', 'C': 'ConnErr', 'O': 'OtherErr'}
+SYM = {'S': 'Success', 'R': 'RpcErr', 'C': 'ConnErr', 'O': 'OtherErr',
+       'T': 'RpcErr',     # wire level: the node answers a transient 5xx through all built-in retries -> RpcError
+       't': 'Success'}    # wire level: two transient 5xx, then 200 (retried on the same node)
+PAUSES = (0, 0, 1, 89, 91, 3600, 86400)
 BAD = 4999  # nat literal that no model run produces: forces a mismatch
 
 
@@ -125,7 +128,42 @@ def run_interleaved(n1, s1, n2, s2, rng, node_mod):
 ENTRIES = ('request', 'get', 'post', 'put', 'delete')
 
 
-def run_wire(n, script, entries, rng, node_mod):
+class FakeClock:
+    """Replaces the clocks the implementation could consult (time.monotonic/time/perf_counter and any copy of them
+    imported into pytezos.rpc.node); advanced explicitly between requests."""
+    NAMES = ('monotonic', 'time', 'perf_counter', 'monotonic_ns', 'time_ns', 'perf_counter_ns')
+
+    def __init__(self, node_mod):
+        import time as _time
+        self.t = 1_000_000.0
+        self.time_mod, self.node_mod = _time, node_mod
+        self.orig = {k: getattr(_time, k) for k in self.NAMES}
+        self.saved_globals = {}
+
+    def fake(self, name):
+        if name.endswith('_ns'):
+            return lambda: int(self.t * 1e9)
+        return lambda: self.t
+
+    def __enter__(self):
+        fakes = {k: self.fake(k) for k in self.NAMES}
+        for k, f in fakes.items():
+            setattr(self.time_mod, k, f)
+        for gname, val in list(vars(self.node_mod).items()):
+            for k, o in self.orig.items():
+                if val is o:
+                    self.saved_globals[gname] = val
+                    setattr(self.node_mod, gname, fakes[k])
+        return self
+
+    def __exit__(self, *a):
+        for k, o in self.orig.items():
+            setattr(self.time_mod, k, o)
+        for gname, val in self.saved_globals.items():
+            setattr(self.node_mod, gname, val)
+
+
+def run_wire(n, script, entries, rng, node_mod, pauses=None):
     """Drive a multi-node client through its public entry points (request/get/post/put/delete) with the HTTP
     layer itself (pytezos.rpc.node.requests / sleep) replaced: the target node is read off the URL that is
     actually requested.  Same observation tuple as run_impl."""
@@ -142,26 +180,51 @@ def run_wire(n, script, entries, rng, node_mod):
             urls.append(str(kw.get('url')))
             return state['f']()
 
+    def response(status, body, ctype='application/json'):
+        r = requests.Response()
+        r.status_code = status
+        r.headers['content-type'] = ctype
+        r._content = body if isinstance(body, bytes) else _json.dumps(body).encode()
+        return r
+
+    def transient(i):
+        if rng.random() < 0.5:
+            return response(rng.choice([500, 502, 503]), [{'kind': 'temporary', 'id': 'node.prevalidation.busy', 'tok': i}])
+        return response(500, b'Fatal error: exception Assert_failure("src/lib_shell/prevalidator.ml", 1918, 4)', 'text/plain')
+
     saved = (node_mod.requests, node_mod.sleep)
     node_mod.requests = FakeRequests
     node_mod.sleep = lambda d: None
     events, contacted, contacted_uris = [], [], []
+    clock = FakeClock(node_mod)
     try:
+        clock.__enter__()
         mn = node_mod.RpcMultiNode(list(uris))
         for i, (sym, entry) in enumerate(zip(script, entries)):
+            if pauses:
+                clock.t += pauses[i]
             del urls[:]
             tok = {'tok': i}
             exc = None
-            if sym in 'SR':
-                r = requests.Response()
-                r.headers['content-type'] = 'application/json'
+            if sym in 'SRTt':
                 if sym == 'S':
-                    r.status_code = 200
-                    r._content = _json.dumps(tok).encode()
+                    seq = [response(200, tok)]
+                elif sym == 'R':
+                    seq = [rng.choice([response(500, [{'kind': 'permanent', 'id': 'node.test', 'tok': i}]),
+                                       response(500, [{'kind': 'temporary', 'id': 'proto.alpha.michelson_v1.runtime_error'}]),
+                                       response(500, b'Internal error', 'text/plain'), response(400, [{'kind': 'permanent', 'id': 'bad.request'}]),
+                                       response(409, b'conflict', 'text/plain'), response(404, b'', 'text/plain'), response(401, b'', 'text/plain')])]
+                elif sym == 'T':
+                    seq = [transient(i) for _ in range(12)]
                 else:
-                    r.status_code = rng.choice([500, 500, 400, 404, 401])
-                    r._content = _json.dumps([{'kind': 'permanent', 'id': 'node.test', 'tok': i}]).encode()
-                state['f'] = lambda r=r: r
+                    seq = [transient(i), transient(i), response(200, tok)]
+                state['k'] = 0
+
+                def nxt(seq=seq):
+                    r = seq[min(state['k'], len(seq) - 1)]
+                    state['k'] += 1
+                    return r
+                state['f'] = nxt
             else:
                 exc = make_exc(sym, rng, node_mod)
 
@@ -180,13 +243,13 @@ def run_wire(n, script, entries, rng, node_mod):
                 k = [j for j, base in enumerate(uris) if u.startswith(base + '/')]
                 hit_u.append(uris[k[0]] if k else u)
                 hits.append(k[0] if k else BAD)
-            if sym == 'S':
+            if sym in 'St':
                 good = ok and (val == tok or (isinstance(val, requests.Response) and val.status_code == 200))
-            elif sym == 'R':
+            elif sym in 'RT':
                 good = (not ok) and isinstance(val, node_mod.RpcError)
             else:
                 good = (not ok) and val is exc
-            if len(hits) == 1 and good:
+            if hits and len(set(hits)) == 1 and good:
                 ev = ('Sent', hits[0], sym)
             elif not hits and not ok and isinstance(val, AssertionError):
                 ev = ('AssertFailed',)
@@ -199,6 +262,7 @@ def run_wire(n, script, entries, rng, node_mod):
         final = v if isinstance(v, int) and 0 <= v < BAD else BAD
         return events, final, contacted, contacted_uris, uris
     finally:
+        clock.__exit__()
         node_mod.requests, node_mod.sleep = saved
 
 
@@ -209,7 +273,8 @@ def spec_oracle(n, script, obs):
     distinct = len(set(uris)) == len(uris)
     for i, hits in enumerate(contacted):
         # what is visible on the wire is the address; with distinct addresses that is the node position itself
-        if contacted_uris[i] != [uris[i % n]] or (distinct and hits != [i % n]):
+        # EVERY HTTP request of call i (built-in retries included) must go to the node the rotation assigned
+        if not hits or set(contacted_uris[i]) != {uris[i % n]} or (distinct and set(hits) != {i % n}):
             where = f'{contacted_uris[i]} (position {hits})' if hits else 'no node'
             return i, (f'request {i} of a client over {uris} went to {where}, expected node {i % n} = {uris[i % n]} '
                        f'(earlier outcomes: {"".join(script[:i])})')
@@ -262,7 +327,7 @@ def run(ctx: lib.Ctx) -> None:
                 '{Success, RpcError, transport error, other exception} up to length 4 (thorough: 2 outcomes up to 12, 3 up to 9, 4 up to 6) '
                 'for 1..4 nodes with distinct addresses, per-node RpcNode.request stubbed (node identified by object position); the same over 8 node lists '
                 'that repeat an address (e.g. a,a,b / a,b,a,c) with scripts up to length 8 (thorough 11); the client driven through every public entry point '
-                '(request/get/post/put/delete, mixed, uniform, and one odd call among requests) with pytezos.rpc.node.requests stubbed and the target read off the URL; plus random scripts of length 11..60 for 1..7 nodes and pairs of '
+                '(request/get/post/put/delete, mixed, uniform, and one odd call among requests) with pytezos.rpc.node.requests stubbed and the target of EVERY HTTP request read off the URL, incl. nodes answering transient 5xx through all retries, and with the clocks stubbed and pauses of 0 s .. 1 day between requests; plus random scripts of length 11..60 for 1..7 nodes and pairs of '
                 'clients used alternately. non-trivial = at least one failing outcome before the last request and n >= 2; '
                 'distinct = distinct (n, script)')
     cases, meta = [], []
@@ -292,19 +357,33 @@ def run(ctx: lib.Ctx) -> None:
                 for tup in itertools.product(alpha, repeat=ln):
                     add(n, tup, run_impl(n, tup, ctx.rng, node_mod, pat), f'repeated-address:n{n}')
     # every public entry point, HTTP layer stubbed, target read off the requested URL
-    def add_wire(n, tup, entries, kind):
-        obs = run_wire(n, tup, entries, ctx.rng, node_mod)
+    def add_wire(n, tup, entries, kind, pauses=None):
+        obs = run_wire(n, tup, entries, ctx.rng, node_mod, pauses)
         script = tuple(tup)
-        ctx.case((n, script, tuple(entries)), nontrivial=n >= 2 and len(script) > 1, kind=kind,
-                 sample={'nodes': n, 'script': ''.join(script), 'entry_points': list(entries), 'urls': obs[3], 'final_next_i': obs[1]})
+        ctx.case((n, script, tuple(entries), tuple(pauses or ())), nontrivial=n >= 2 and len(script) > 1, kind=kind,
+                 sample={'nodes': n, 'script': ''.join(script), 'entry_points': list(entries), 'pauses_s': pauses, 'urls': obs[3], 'final_next_i': obs[1]})
         ctx.dist.update(f'entry:{e}' for e in entries)
         cases.append((coq_case(n, script), coq_obs(obs)))
-        meta.append((n, script, obs + (list(entries),)))
+        meta.append((n, script, obs + (list(entries), pauses)))
 
     for n in (1, 2, 3, 4):
         for ln in range(1, ctx.n(4, 6) + 1):                       # mixed entry points
             for tup in itertools.product('SRCO', repeat=ln):
                 add_wire(n, tup, [ctx.rng.choice(ENTRIES) for _ in tup], 'wire:mixed')
+    for n in (2, 3, 4):                                           # node answers: persistent transient 5xx, transient then ok, permanent 5xx / 4xx / 401 / 404
+        for ln in range(1, ctx.n(4, 6) + 1):
+            for tup in itertools.product('STtR', repeat=ln):
+                if 'T' in tup or 't' in tup:
+                    add_wire(n, tup, [ctx.rng.choice(ENTRIES) for _ in tup], 'wire:http-responses')
+    for n in (2, 3, 4):                                           # pauses between requests (clocks of pytezos.rpc.node stubbed): rotation must not depend on elapsed time
+        for ln in range(2, ctx.n(4, 5) + 1):
+            for pz in itertools.product((0, 89, 91, 86400), repeat=ln - 1):
+                tup = tuple(ctx.rng.choice('SSRC') for _ in range(ln))
+                add_wire(n, tup, [ctx.rng.choice(ENTRIES) for _ in tup], 'wire:pauses', [0] + list(pz))
+        for _ in range(ctx.n(60, 400)):
+            ln = ctx.rng.randrange(2, 12)
+            tup = tuple(ctx.rng.choice('SSRCTt') for _ in range(ln))
+            add_wire(n, tup, [ctx.rng.choice(ENTRIES) for _ in tup], 'wire:pauses', [ctx.rng.choice(PAUSES) for _ in range(ln)])
     for entry in ENTRIES:                                         # one entry point throughout, and one odd call among plain requests
         for n in (2, 3, 4):
             for ln in range(1, ctx.n(5, 8) + 1):
@@ -345,8 +424,9 @@ def run(ctx: lib.Ctx) -> None:
         n, script, obs = meta[idx]
         short = list(script[:at + 1])
         entry_points = obs[5][:at + 1] if len(obs) > 5 else ['request'] * (at + 1)
+        pauses = obs[6][:at + 1] if len(obs) > 6 and obs[6] else None
         ctx.violation(f'rotation violated: {why}',
-                      {'nodes': n, 'uris': obs[4], 'script': short, 'entry_points': entry_points, 'legend': 'S success, R RpcError, C requests ConnectionError/Timeout, O other exception',
+                      {'nodes': n, 'uris': obs[4], 'script': short, 'entry_points': entry_points, 'pause_before_each_request_s': pauses, 'legend': 'S success, R RpcError (permanent 5xx/4xx/401/404), C requests ConnectionError/Timeout, O other exception, T transient 5xx through all retries, t two transient 5xx then 200',
                        'contacted_positions': obs[2][:at + 1], 'contacted_uris': obs[3][:at + 1], 'events': [list(e) for e in obs[0][:at + 1]],
                        'repro': f"c = RpcMultiNode({obs[4]!r}); call c.<entry_points[i]>(path) for i = 0..{at} with the HTTP layer "
                                 f"(pytezos.rpc.node.requests.request, or RpcNode.request when every entry point is 'request') stubbed to produce the "
